@@ -173,7 +173,10 @@ func (pubKey PubKeySM2) VerifyBytes(msg []byte, sig crypto.Signature) bool {
 		return false
 	}
 
-	pub := sm2.Decompress(pubKey[0:SM2PublicKeyCompressed])
+	pub := decompressPubKey(pubKey[0:SM2PublicKeyCompressed])
+	if pub == nil {
+		return false
+	}
 	r, s, err := Deserialize(sigSM2)
 	if err != nil {
 		fmt.Printf("unmarshal sign failed")
@@ -181,6 +184,25 @@ func (pubKey PubKeySM2) VerifyBytes(msg []byte, sig crypto.Signature) bool {
 	}
 
 	return sm2.Sm2Verify(pub, msg, uid, r, s)
+}
+
+// decompressPubKey returns nil for bytes that are not a compressed point of the curve.
+// sm2.Decompress itself does not validate its input: it dereferences a nil square root when the
+// x coordinate is not on the curve and accepts any prefix byte.
+func decompressPubKey(b []byte) (pub *sm2.PublicKey) {
+	defer func() {
+		if r := recover(); r != nil {
+			pub = nil
+		}
+	}()
+	if b[0] != 0x02 && b[0] != 0x03 {
+		return nil
+	}
+	pub = sm2.Decompress(b)
+	if pub == nil || pub.X == nil || pub.Y == nil || !pub.Curve.IsOnCurve(pub.X, pub.Y) {
+		return nil
+	}
+	return pub
 }
 
 func (pubKey PubKeySM2) String() string {
